@@ -116,3 +116,66 @@ func runFileProg(fp fileProg, st *stats) (fails []fail, obs string) {
 	}
 	return fails, "files:" + r0.Class[:1]
 }
+
+// Exact-fit configurations: with tengo.MaxStringLen / MaxBytesLen lowered to exactly the size of the program's
+// largest constant, the program compiles and runs; its bytecode must then also survive Encode/Decode (a constant
+// that is legal for the compiler is legal for the decoder). Sequential: the limits are package variables.
+var exactFitProgs = []struct {
+	name, src        string
+	maxStr, maxBytes int
+}{
+	{"string-constant-exact", "s := \"abcdefgh\"\nout := [len(s), s + \"\", \"abcd\"]\n", 8, 0},
+	{"string-constant-exact-in-function", "f := func() { return \"abcdefgh\" }\nout := f()\n", 8, 0},
+	{"string-constant-one-below", "s := \"abcdefg\"\nout := s\n", 8, 0},
+	{"bytes-module-exact", "out := import(\"bytesmod\")\n", 0, 3},
+	{"selector-name-exact", "m := {}\nm.abcdefgh = 1\nout := m\n", 8, 0},
+	{"module-string-exact", "out := import(\"strmod\")\n", 8, 0},
+}
+
+func runExactFit(i int, st *stats) (fails []fail, obs string) {
+	p := exactFitProgs[i]
+	add := func(sig, what string) { fails = append(fails, fail{sig + "/family=exact-fit/prog=" + p.name, what}) }
+	oldS, oldB := tengo.MaxStringLen, tengo.MaxBytesLen
+	defer func() { tengo.MaxStringLen, tengo.MaxBytesLen = oldS, oldB }()
+	if p.maxStr > 0 {
+		tengo.MaxStringLen = p.maxStr
+	}
+	if p.maxBytes > 0 {
+		tengo.MaxBytesLen = p.maxBytes
+	}
+	mm := modules(tg.Sources{ModMap: tengo.NewModuleMap()})
+	for n, o := range tg.ObjModules() {
+		mm.Add(n, tg.ObjModule{Obj: o})
+	}
+	mm.AddSourceModule("strmod", []byte("export \"abcdefgh\"\n"))
+	s := tengo.NewScript([]byte(p.src))
+	s.SetImports(mm)
+	c, err := s.Compile()
+	if err != nil {
+		return []fail{{"internal/exact-fit-compile", p.name + ": " + err.Error()}}, "compile-error"
+	}
+	b0, names := c.VerifBytecode(), c.VerifGlobalIndexes()
+	run := func(bc *tengo.Bytecode) (tg.VMRun, string) {
+		globals := make([]tengo.Object, tengo.GlobalsSize)
+		r := tg.RunVM(bc, globals, -1, 100000, nil)
+		out := "undefined"
+		if o := globals[names["out"]]; o != nil {
+			out = val.Snapshot(o)
+		}
+		return r, out
+	}
+	r0, o0 := run(b0)
+	st.runs++
+	b2, derr, pan := roundTrip(b0, mm)
+	if pan != "" || derr != nil {
+		add("serialise/exact-fit-roundtrip-fails", fmt.Sprintf("MaxStringLen=%d MaxBytesLen=%d: the program compiles and runs (%s), but Encode/Decode of its bytecode fails: %v %s", tengo.MaxStringLen, tengo.MaxBytesLen, r0.Class, derr, pan))
+		return fails, "roundtrip-failed"
+	}
+	r2, o2 := run(b2)
+	st.runs++
+	st.variants++
+	if r2.Class != r0.Class || r2.ErrText != r0.ErrText || o0 != o2 {
+		add("run/exact-fit-gob/differs", fmt.Sprintf("original %s %s %q, decoded %s %s %q", r0.Class, o0, tg.FirstLine(r0.ErrText), r2.Class, o2, tg.FirstLine(r2.ErrText)))
+	}
+	return fails, "exact-fit:" + r0.Class[:1]
+}
